@@ -89,7 +89,10 @@ impl TaskPool {
     pub fn spawn(&self, code: Box<dyn FnMut() + Send>) {
         let mut queue = self.sharing.todo.lock().unwrap();
 
-        if self.sharing.waiting_tasks.load(Ordering::Acquire) == 0 {
+        // every worker counted in `waiting_tasks` takes exactly one queued task when it gets
+        // the lock back (woken ones included, which are still counted): the new task is only
+        // sure to find a worker if there are more of them than tasks already queued
+        if self.sharing.waiting_tasks.load(Ordering::Acquire) <= queue.len() {
             self.add_thread(Some(code));
         } else {
             queue.push_back(code);
